@@ -80,6 +80,21 @@ def import_sut():
     return ttm
 
 
+def preload_sut():
+    """Import every scikit_tt module once (module top-levels only; no API call), so that forked children of this
+    process do not pay the import cost and still start from a state in which the library has never *run*."""
+    import importlib
+    import_sut()
+    for name in ("scikit_tt.utils", "scikit_tt.solvers.sle", "scikit_tt.solvers.evp", "scikit_tt.solvers.ode",
+                 "scikit_tt.data_driven.transform", "scikit_tt.data_driven.regression", "scikit_tt.data_driven.tdmd",
+                 "scikit_tt.data_driven.tedmd", "scikit_tt.data_driven.tgedmd", "scikit_tt.data_driven.ulam",
+                 "scikit_tt.slim", "scikit_tt.models", "scikit_tt.quantum_computation"):
+        try:
+            importlib.import_module(name)
+        except Exception as e:  # a tree under test may have broken an import; the run that needs it will say so
+            sys.stderr.write("simtt.env: could not preload %s: %r\n" % (name, e))
+
+
 def repo_head():
     import subprocess
     try:
